@@ -38,6 +38,44 @@ def _cpu_seconds(pid):
         return 0.0
 
 
+def _tree_cpu(pid):
+    """CPU seconds of a process, its waited-for children and all live descendants."""
+    total = 0.0
+    todo, seen = [pid], set()
+    while todo:
+        q = todo.pop()
+        if q in seen:
+            continue
+        seen.add(q)
+        try:
+            with open(f"/proc/{q}/stat") as f:
+                parts = f.read().rsplit(")", 1)[1].split()
+            total += sum(int(parts[k]) for k in (11, 12, 13, 14)) / os.sysconf("SC_CLK_TCK")
+            for t in os.listdir(f"/proc/{q}/task"):
+                with open(f"/proc/{q}/task/{t}/children") as f:
+                    todo += [int(x) for x in f.read().split()]
+        except Exception:
+            pass
+    return total
+
+
+IDLE_WINDOW_S = 40.0  # a shard (with its descendants) that burns < IDLE_CPU_S in such a window without
+IDLE_CPU_S = 0.25  # moving its journal is blocked (e.g. a pool whose worker died), not slowed down by load
+
+
+def _kill_tree(p):
+    import signal
+
+    try:
+        os.killpg(p.pid, signal.SIGKILL)
+    except Exception:
+        try:
+            p.kill()
+        except Exception:
+            pass
+    p.wait()
+
+
 def _run_shards(prop, descs, watchdog_s, crash_ok=False):
     work = tempfile.mkdtemp(prefix=f"cv-{prop}-", dir=_workdir())
     procs = []  # (idx, Popen, outfile, t0)
@@ -62,6 +100,7 @@ def _run_shards(prop, descs, watchdog_s, crash_ok=False):
                     stdout=lf,
                     stderr=subprocess.STDOUT,
                     cwd=VERIF_DIR,
+                    start_new_session=True,  # own process group: pool workers die with the shard
                 )
                 procs.append((i, p, of, time.time(), lf))
             time.sleep(0.05)
@@ -79,10 +118,17 @@ def _run_shards(prop, descs, watchdog_s, crash_ok=False):
                             mt = os.path.getmtime(jp)
                             cpu = _cpu_seconds(p.pid)
                             st = stall_state.get(i)
+                            now = time.time()
                             if st is None or st[0] != mt:
-                                stall_state[i] = (mt, cpu, time.time())
+                                stall_state[i] = (mt, cpu, now, now, _tree_cpu(p.pid))
                             else:
-                                stalled = (cpu - st[1] > STALL_S) or (time.time() - st[2] > 10 * STALL_S)
+                                stalled = (cpu - st[1] > STALL_S) or (now - st[2] > 10 * STALL_S)
+                                if not stalled and now - st[3] >= IDLE_WINDOW_S:
+                                    tc = _tree_cpu(p.pid)
+                                    if tc - st[4] < IDLE_CPU_S:
+                                        stalled = True  # blocked: nobody in the shard's process tree is running
+                                    else:
+                                        stall_state[i] = st[:3] + (now, tc)
                         except OSError:
                             stalled = False
                     if stalled:
@@ -95,12 +141,10 @@ def _run_shards(prop, descs, watchdog_s, crash_ok=False):
                             time.sleep(1.0)
                         except Exception:
                             pass
-                        p.kill()
-                        p.wait()
+                        _kill_tree(p)
                         rc = "stalled"
                     elif time.time() - t0 > watchdog_s:
-                        p.kill()
-                        p.wait()
+                        _kill_tree(p)
                         lf.close()
                         failures.append(f"shard {i} exceeded watchdog {watchdog_s}s")
                         if os.path.exists(of + ".ckpt"):
@@ -113,6 +157,13 @@ def _run_shards(prop, descs, watchdog_s, crash_ok=False):
                         still.append((i, p, of, t0, lf))
                     if rc != "stalled":
                         continue
+                else:
+                    try:  # orphaned pool workers of a shard that ended or crashed
+                        import signal
+
+                        os.killpg(p.pid, signal.SIGKILL)
+                    except Exception:
+                        pass
                 lf.close()
                 if os.path.exists(of):
                     with open(of) as f:
@@ -157,7 +208,7 @@ def _run_shards(prop, descs, watchdog_s, crash_ok=False):
     finally:
         for i, p, of, t0, lf in procs:
             try:
-                p.kill()
+                _kill_tree(p)
             except Exception:
                 pass
         shutil.rmtree(work, ignore_errors=True)
@@ -209,6 +260,11 @@ def main(argv):
             pass
     if probes and hasattr(mod, "run_probe"):
         descs = list(descs) + [{"kind": "probes", "probes": probes}]
+    # the repository's own test-suite as one more workload, run with this property's monitor armed
+    from cv import suiterun
+
+    if prop in suiterun.EVALS and os.environ.get("CV_NO_SUITE") != "1":
+        descs = [suiterun.shard_desc(prop, tier)] + list(descs)  # first: it is the longest shard
     for i, d in enumerate(descs):
         d.setdefault("tier", tier)
         d.setdefault("seed", seed)
